@@ -81,7 +81,7 @@ CHECKS = {
          "stateless exploration of all interleavings (iterative preemption bounding + state deduplication) of 2-3 simulated processes executing the real cache functions under a cooperative scheduler over a virtual file system",
          "The real set_configs_directory, convert_db/find_converted_db and store_*/find_stored_* functions run as threads that can be "
          "descheduled only inside intercepted file-system calls on the shared cache; every interleaving up to the preemption bound (quick 3; "
-         "thorough unbounded for 2 processes, 2 for 3 processes) is executed, deduplicated on (virtual FS content, per-process observed "
+         "thorough 4 for 2 processes, 3 with the mapper caches, 2 for 3 processes) is executed, deduplicated on (virtual FS content, per-process observed "
          "history). Oracle on every complete schedule: no process fails, no read observes a file another process has open for writing, the "
          "database a process ends up with was converted from its own GTF, the final cache files are valid JSON.",
          "Trusted: the visibility model of the virtual FS (truncate-at-open, publish-at-close, atomic replace) and the two-step stub of "
@@ -152,6 +152,24 @@ CHECKS = {
          "ungrouped ones and match the per-group recount.",
          "Trusted: recount in props/c13.py; near-threshold overlaps are not decided.",
          "DESIGN.md §3 C13"),
+ "C03": ("exploration",
+         "bounded-exhaustive enumeration of read-mixture scenarios (sub-multisets of 14 read structures x coverage levels) x construction strategies x annotation on/off x reporting options x split-locus variants; GTF well-formedness and reference-verbatim invariants on every pipeline run",
+         "Scenarios: all combinations of <=2 (quick) / <=3 (thorough) structures out of known full-length, truncated, novel-in-catalog, novel exon "
+         "(canonical / non-canonical), bulge, tip, mono-exonic, antisense, novel gene, alternative polyA, each at coverage 1/3/12, under 3/8 "
+         "construction strategies, with and without annotation, --report_canonical levels, and with region-splitting constants scaled so that one "
+         "gene is processed in several regions. Every transcript of transcript_models.gtf and extended_annotation.gtf is validated: >=1 exon, "
+         "sorted disjoint exons inside the chromosome, transcript record spans its exons and is unique, gene record unique/same chromosome and "
+         "strand/contains its transcripts, reference ids carry exactly the reference structure, extended = reference + exactly the novel models.",
+         "Trusted: GTF parser; chromosome lengths from the world definition.",
+         "DESIGN.md §3 C03/C04"),
+ "C04": ("exploration",
+         "same bounded-exhaustive MIX scenario space as C03; evidence/label/non-redundancy invariants on every pipeline run",
+         "For every novel transcript of every run: each intron occurs in the corrected alignment (BED) of some read of the chromosome, >=1 "
+         "supporting read in transcript_model_reads (which mentions only printed transcripts), strand + or -, .nic exactly when all introns are "
+         "annotated, intron chain different from every reference chain and from every other novel chain on the strand; annotation-free runs "
+         "contain only novel transcripts in novel_gene_* genes.",
+         "Trusted: GTF/BED parsers; 'annotated intron' = exact coordinates of a reference intron.",
+         "DESIGN.md §3 C03/C04"),
 }
 
 NOT_YET = {}
